@@ -168,15 +168,39 @@ theorem cert_host_in_trust_domain (cfg : Cfg) (az : Authz) (csr : Csr) (n : Nat)
         exact absurd hs (by simp)
     · simp at hh
 
-/-- What the agent branch rebuilds never denotes a *different* identity: whatever the decoded
-    segments are (even with '/' inside), the re-rendered URI either parses to exactly the
-    authorized agent in the trust domain or does not parse to an agent, service, gateway or server
-    of another name. -/
+/-- **The certificate never names another identity** (full strength).  Whatever the request looks
+    like — escaped or case-varied segments, '/' hidden in `%2F`, foreign hosts — if the URI in the
+    issued certificate parses at all (with the parser every verifier uses) it parses to exactly the
+    identity that was authorized, agents being moved into the trust domain.  Together with
+    `cert_carries_identity_partial` (it does parse, except for the `%2F` case above). -/
+theorem cert_never_carries_another_identity (cfg : Cfg) (az : Authz) (csr : Csr) (n : Nat) (c : Cert)
+    (h : authorizeAndSign cfg az csr n = .ok c) :
+    ∃ u id, csr.uris = [u] ∧ parseId u = .ok id ∧
+      ∃ u', c.uris = [u'] ∧ ∀ id', parseId u' = .ok id' → id' = normalize cfg id := by
+  obtain ⟨u, id, uris, hu, _, hid, _, _, hsu, rfl⟩ := authorizeAndSign_ok cfg az csr n c h
+  refine ⟨u, id, hu, hid, ?_⟩
+  have h3 := signUris_ok cfg u id uris hsu
+  have same : ∀ id', parseId u = .ok id' → id' = id := by
+    intro id' h'; rw [hid] at h'; simpa using h'.symm
+  cases id with
+  | signing => exact absurd h3 id
+  | service => exact ⟨u, by rw [h3.2], fun id' h' => by simpa [normalize] using same id' h'⟩
+  | gateway => exact ⟨u, by rw [h3.2], fun id' h' => by simpa [normalize] using same id' h'⟩
+  | server => exact ⟨u, by rw [h3.2], fun id' h' => by simpa [normalize] using same id' h'⟩
+  | agent host ap dc node =>
+    rcases h3 with ⟨hh, rfl⟩ | ⟨hh, _, rfl⟩ | ⟨hh, hs, rfl⟩
+    · exact ⟨u, rfl, fun id' h' => by simpa [normalize, hh] using same id' h'⟩
+    · refine ⟨_, rfl, fun id' h' => ?_⟩
+      simp only [normalize, hh, if_false]
+      exact agent_render_parse cfg.trustDomain ap dc node id' h'
+    · rw [sameAgentUri_self u host ap dc node hid] at hs
+      exact absurd hs (by simp)
+
+/-- Re-rendering an agent identity from its decoded fields can never produce a URI that parses to
+    anything but that very agent: for ALL byte strings, '/' inside the fields included. -/
 theorem agent_rewrite_no_confusion (td ap dc node : Bytes) (id : Id)
-    (h : parseId (uriOf (.agent td ap dc node)) = .ok id) (hd : 47 ∉ dc) (hn : 47 ∉ node)
-    (hd0 : dc ≠ []) (hn0 : node ≠ []) : id = .agent td bDefault dc node := by
-  rw [parse_agent_canon td ap dc node ⟨hd0, hd⟩ ⟨hn0, hn⟩] at h
-  simpa using h.symm
+    (h : parseId (uriOf (.agent td ap dc node)) = .ok id) : id = .agent td bDefault dc node :=
+  agent_render_parse td ap dc node id h
 
 /-! ## parsing -/
 
